@@ -69,13 +69,22 @@ impl Source for FileSystem {
         let path = self.path_of(DirEntry::File(id, ext));
         match fs::read(&path) {
             Ok(buf) => Ok(super::FileContent::Buffer(buf)),
+            // A directory with that path does not make the file exist
+            Err(_) if path.is_dir() => Err(read_error(io::ErrorKind::NotFound.into(), path)),
             Err(err) => Err(read_error(err, path)),
         }
     }
 
     fn read_dir(&self, id: &str, f: &mut dyn FnMut(DirEntry)) -> io::Result<()> {
         let dir_path = self.path_of(DirEntry::Directory(id));
-        let entries = fs::read_dir(&dir_path).map_err(|err| read_error(err, dir_path))?;
+        let entries = fs::read_dir(&dir_path).map_err(|err| {
+            // A file with that path does not make the directory exist
+            let err = match dir_path.is_file() {
+                true => io::ErrorKind::NotFound.into(),
+                false => err,
+            };
+            read_error(err, dir_path)
+        })?;
 
         let mut entry_id = id.to_owned();
 
